@@ -565,3 +565,278 @@ Proof.
   { unfold pref. destruct pr; [rewrite make_snakecase_skip by reflexivity|]; apply make_snakecase_idempotent. }
   rewrite Es, E3. reflexivity.
 Qed.
+
+(* ---------------------------------------------------------------------------------------- *)
+(* When does the construction succeed?  Exactly when the first [A-Za-z0-9] character is a letter.
+   (R19.2, before the repair: "_1x" became "1_x", and a name without any such character raised
+   RuntimeError; now both are left alone.) *)
+
+Definition non_alnum (c : N) : bool := negb (is_alnum c).
+Definition first_alnum (v : text) : option N := hd_error (drop_while non_alnum v).
+
+Lemma list_words_drop v : list_words v = list_words (drop_while non_alnum v).
+Proof.
+  induction v as [|c t IH]; [reflexivity|]. cbn [drop_while]. unfold non_alnum at 1.
+  destruct (is_alnum c) eqn:E; cbn [negb]; [reflexivity|]. now rewrite list_words_skip.
+Qed.
+
+Lemma match_at_head c t : is_alnum c = true -> exists w', fst (match_at (c :: t)) = c :: w'.
+Proof.
+  intros Hc. destruct (is_upper c) eqn:Eu.
+  - unfold match_at. destruct (alt1_len (c :: t)) as [k|] eqn:Ek.
+    + apply alt1_len_bound in Ek. destruct k as [|k']; [lia|]. cbn [firstn app fst]. eauto.
+    + rewrite Eu. cbn [fst app]. eauto.
+  - assert (Hs : stops is_upper (c :: t) = true) by (cbn; now rewrite Eu).
+    unfold match_at. rewrite (alt1_none _ Hs), Eu. cbn [app fst].
+    destruct (is_lower c) eqn:El.
+    + cbn [take_while]. rewrite El. cbn [app]. eauto.
+    + assert (Hd : is_digit c = true) by (revert Hc Eu El; cls; lia).
+      cbn [take_while drop_while]. rewrite El. cbn [app take_while]. rewrite Hd. eauto.
+Qed.
+
+Lemma snake_head st v c :
+  first_alnum v = Some c ->
+  exists t, make_snakecase st v = (if st then to_upper c else to_lower c) :: t.
+Proof.
+  unfold first_alnum, make_snakecase. rewrite (list_words_drop v).
+  destruct (drop_while non_alnum v) as [|d r] eqn:E; [discriminate|]. intros [= ->].
+  assert (Hc : is_alnum c = true).
+  { pose proof (dw_stops non_alnum v) as Hs. rewrite E in Hs. cbn in Hs. unfold non_alnum in Hs.
+    now destruct (is_alnum c). }
+  rewrite list_words_step. destruct (match_at_head c r Hc) as [w' ->].
+  cbn [map]. set (f := if st then to_upper else to_lower).
+  replace (if st then to_upper c else to_lower c) with (f c) by (unfold f; now destruct st).
+  destruct (map (map f) (list_words (snd (match_at (c :: r))))); cbn; eauto.
+Qed.
+
+Lemma snake_empty st v : first_alnum v = None -> make_snakecase st v = [].
+Proof.
+  unfold first_alnum, make_snakecase. rewrite (list_words_drop v).
+  destruct (drop_while non_alnum v); [reflexivity|discriminate].
+Qed.
+
+Lemma is_ident_cons c t : is_ident (c :: t) = (is_alpha c || is_under c) && forallb is_idchar t.
+Proof. reflexivity. Qed.
+
+Lemma snake_tail_chars st v c t : make_snakecase st v = c :: t -> forallb is_idchar t = true.
+Proof.
+  intros E. pose proof (make_snakecase_chars st v) as H. rewrite E in H. cbn in H.
+  now apply andb_true_iff in H as [_ H].
+Qed.
+
+Theorem snake_is_ident_iff st v :
+  is_ident (make_snakecase st v) =
+    match first_alnum v with Some c => is_alpha c | None => false end.
+Proof.
+  destruct (first_alnum v) as [c|] eqn:E.
+  - destruct (snake_head st v c E) as [t Et]. rewrite Et, is_ident_cons, (snake_tail_chars _ _ _ _ Et).
+    rewrite andb_true_r.
+    assert (Ha : is_alnum c = true).
+    { unfold first_alnum in E. pose proof (dw_stops non_alnum v) as Hs.
+      destruct (drop_while non_alnum v) as [|d r]; [discriminate|]. injection E as ->.
+      cbn in Hs. unfold non_alnum in Hs. now destruct (is_alnum c). }
+    destruct (is_alpha c) eqn:Ea.
+    + destruct st; [rewrite (upper_alpha _ (to_upper_alpha _ Ea))|rewrite (lower_alpha _ (to_lower_alpha _ Ea))]; reflexivity.
+    + assert (Hd : is_digit c = true) by (revert Ha Ea; cls; lia).
+      destruct st; [rewrite (to_upper_digit _ Hd)|rewrite (to_lower_digit _ Hd)];
+        rewrite (digit_not_alpha _ Hd); revert Hd; cls; lia.
+  - now rewrite (snake_empty st v E).
+Qed.
+
+(* complete description of rename_variable *)
+Theorem rename_variable_public v st :
+  rename_variable v st false =
+    if text_eqb v [US] || is_dunder v then v
+    else match first_alnum v with
+         | Some c => if is_alpha c then make_snakecase st v else v
+         | None => v
+         end.
+Proof.
+  rewrite rename_variable_simpl'. unfold pref.
+  destruct (text_eqb v [US]); [reflexivity|]. destruct (is_dunder v); [reflexivity|]. cbn [orb].
+  rewrite snake_is_ident_iff. destruct (first_alnum v) as [c|]; reflexivity.
+Qed.
+
+Theorem rename_variable_private v st :
+  rename_variable v st true = if text_eqb v [US] || is_dunder v then v else US :: make_snakecase st v.
+Proof.
+  rewrite rename_variable_simpl'. unfold pref.
+  destruct (text_eqb v [US]); [reflexivity|]. destruct (is_dunder v); [reflexivity|]. cbn [orb].
+  rewrite is_ident_cons. cbn. now rewrite (make_snakecase_chars st v).
+Qed.
+
+(* R19.2 (regression witnesses of the repaired defect): the raw construction is not an identifier *)
+Example snake_1x_not_ident :
+  make_snakecase false [95; 49; 120] = [49; 95; 120] /\ is_ident [49; 95; 120] = false
+  /\ rename_variable [95; 49; 120] false false = [95; 49; 120].
+Proof. vm_compute. repeat split. Qed.
+Example snake_eacute_empty :
+  make_snakecase false [233] = [] /\ rename_variable [233] false false = [233]
+  /\ rename_class [233] false = Some [233].
+Proof. vm_compute. repeat split. Qed.
+
+(* ---------------------------------------------------------------------------------------- *)
+(* CamelCase: rename_class is NOT idempotent (two adjacent one-letter words fuse into one
+   upper-case run), but it is when every word starts with two letters. *)
+
+Theorem rename_class_idempotent_refuted :
+  exists n pr r r', rename_class n pr = Some r /\ rename_class r pr = Some r' /\ r <> r'.
+Proof.
+  (* "a_b" -> "AB" -> "Ab" *)
+  exists [97; 95; 98], false, [65; 66], [65; 98]. vm_compute. repeat split. discriminate.
+Qed.
+
+Definition two_alpha (w : text) : bool :=
+  match w with a :: b :: _ => is_alpha a && is_alpha b | _ => false end.
+Definition camel_guard (n : text) : bool := forallb two_alpha (list_words (collapse_us false n)).
+
+Definition capsep (r : text) : bool := match r with [] => true | c :: _ => is_upper c end.
+Definition cap_word (w : text) : Prop :=
+  exists u l ls ds, w = u :: (l :: ls) ++ ds /\ is_upper u = true /\ forallb is_lower (l :: ls) = true
+                    /\ forallb is_digit ds = true.
+
+Lemma capsep_stops_lower r : capsep r = true -> stops is_lower r = true.
+Proof. destruct r as [|c t]; cbn; [reflexivity|]. cls; lia. Qed.
+Lemma capsep_stops_digit r : capsep r = true -> stops is_digit r = true.
+Proof. destruct r as [|c t]; cbn; [reflexivity|]. cls; lia. Qed.
+
+Lemma match_at_cap w r : cap_word w -> capsep r = true -> match_at (w ++ r) = (w, r).
+Proof.
+  intros (u & l & ls & ds & -> & Hu & Hl & Hd) Hr.
+  assert (Hl1 : is_lower l = true) by (cbn in Hl; now apply andb_true_iff in Hl as [H _]).
+  assert (Hsl : stops is_lower (ds ++ r) = true)
+    by (apply stops_digits_then; [exact digit_not_lower|exact Hd|now apply capsep_stops_lower]).
+  assert (Hsd := capsep_stops_digit _ Hr).
+  unfold match_at, alt1_len. cbn [app take_while]. rewrite Hu, (lower_not_upper _ Hl1).
+  cbn [length Nat.leb].
+  replace (l :: (ls ++ ds) ++ r) with ((l :: ls) ++ ds ++ r) by (cbn; now rewrite <- app_assoc).
+  rewrite (tw_app _ _ _ Hl Hsl), (dw_app _ _ _ Hl Hsl).
+  rewrite (tw_app _ _ _ Hd Hsd), (dw_app _ _ _ Hd Hsd).
+  reflexivity.
+Qed.
+
+Lemma cap_word_ne w : cap_word w -> w <> [].
+Proof. intros (u & l & ls & ds & -> & _). discriminate. Qed.
+
+Lemma capsep_concat ws : Forall cap_word ws -> capsep (concat ws) = true.
+Proof.
+  intros H. destruct H as [|w ws Hw _]; [reflexivity|].
+  destruct Hw as (u & l & ls & ds & -> & Hu & _). exact Hu.
+Qed.
+
+Lemma list_words_concat_cap ws : Forall cap_word ws -> list_words (concat ws) = ws.
+Proof.
+  induction ws as [|w ws IH]; intros Hall; [reflexivity|].
+  inversion Hall as [|? ? Hw Hws]; subst. cbn [concat].
+  rewrite (list_words_word _ _ (cap_word_ne _ Hw) (match_at_cap _ _ Hw (capsep_concat _ Hws))).
+  now rewrite (IH Hws).
+Qed.
+
+Lemma capitalize_cap w : wshape w = true -> two_alpha w = true -> cap_word (capitalize w).
+Proof.
+  intros Hs Ht. destruct w as [|a [|b rest]]; try discriminate. cbn in Ht.
+  apply andb_true_iff in Ht as [Ha Hb].
+  unfold wshape in Hs. cbn [drop_while] in Hs. rewrite Ha, Hb in Hs. cbn in Hs.
+  exists (to_upper a), (to_lower b), (map to_lower (take_while is_alpha rest)), (drop_while is_alpha rest).
+  repeat split.
+  - cbn. f_equal. f_equal. rewrite <- (tw_dw is_alpha rest) at 1. rewrite map_app. f_equal.
+    exact (map_id_on _ is_digit _ to_lower_digit Hs).
+  - now apply to_upper_alpha.
+  - cbn. rewrite (to_lower_alpha _ Hb). exact (forallb_map _ _ is_alpha _ to_lower_alpha (tw_all _ _)).
+  - exact Hs.
+Qed.
+
+Lemma capitalize_fixed w : cap_word w -> capitalize w = w.
+Proof.
+  intros (u & l & ls & ds & -> & Hu & Hl & Hd). cbn [capitalize]. rewrite (to_upper_upper _ Hu). f_equal.
+  rewrite map_app. now rewrite (map_id_on _ is_lower _ to_lower_lower Hl), (map_id_on _ is_digit _ to_lower_digit Hd).
+Qed.
+
+Lemma Forall_cap ws :
+  Forall (fun w => wshape w = true) ws -> forallb two_alpha ws = true -> Forall cap_word (map capitalize ws).
+Proof.
+  intros Hall. induction Hall as [|w ws Hw _ IH]; cbn; intros H; [constructor|].
+  apply andb_true_iff in H as [H1 H2]. constructor; [now apply capitalize_cap|now apply IH].
+Qed.
+
+Lemma camel_of_camel s :
+  forallb two_alpha (list_words s) = true -> make_camelcase (make_camelcase s) = make_camelcase s.
+Proof.
+  intros Hg. pose proof (Forall_cap _ (list_words_shape s) Hg) as Hc.
+  unfold make_camelcase at 1. unfold make_camelcase at 1. rewrite (list_words_concat_cap _ Hc).
+  unfold make_camelcase. f_equal.
+  clear Hg. induction Hc as [|w ws Hw _ IH]; cbn; [reflexivity|]. now rewrite (capitalize_fixed _ Hw), IH.
+Qed.
+
+Lemma make_camelcase_skip c t : is_alnum c = false -> make_camelcase (c :: t) = make_camelcase t.
+Proof. intros H. unfold make_camelcase. now rewrite (list_words_skip _ _ H). Qed.
+
+Lemma capitalize_alnum w : forallb is_alnum w = true -> forallb is_alnum (capitalize w) = true.
+Proof.
+  destruct w as [|c t]; [reflexivity|]. cbn. intros H. apply andb_true_iff in H as [Hc Ht].
+  rewrite (to_upper_alnum _ Hc). exact (forallb_map _ _ is_alnum _ to_lower_alnum Ht).
+Qed.
+
+Lemma make_camelcase_alnum s : forallb is_alnum (make_camelcase s) = true.
+Proof.
+  unfold make_camelcase. pose proof (list_words_shape s) as Hall.
+  induction Hall as [|w ws Hw _ IH]; [reflexivity|]. cbn [map concat]. rewrite forallb_app, IH.
+  now rewrite (capitalize_alnum _ (wshape_alnum _ Hw)).
+Qed.
+
+Lemma alnum_not_private s : forallb is_alnum s = true -> is_private s = false.
+Proof.
+  destruct s as [|c t]; [reflexivity|]. cbn. intros H. apply andb_true_iff in H as [Hc _].
+  now apply alnum_not_under.
+Qed.
+
+Lemma collapse_alnum b s : forallb is_alnum s = true -> collapse_us b s = s.
+Proof.
+  revert b; induction s as [|c t IH]; intros b H; [reflexivity|]. cbn in *.
+  apply andb_true_iff in H as [Hc Ht]. rewrite (alnum_not_under _ Hc). now rewrite IH.
+Qed.
+
+Lemma rename_class_simpl n pr :
+  rename_class n pr =
+    match collapse_us false n with
+    | [] => None
+    | _ :: _ => let c := make_camelcase (collapse_us false n) in
+                Some (if is_ident (pref pr c) then pref pr c else n)
+    end.
+Proof.
+  unfold rename_class. destruct (collapse_us false n) as [|x y]; [reflexivity|].
+  cbv zeta. rewrite (alnum_not_private _ (make_camelcase_alnum (x :: y))).
+  unfold pref. destruct pr; reflexivity.
+Qed.
+
+(* the dead branch of rename_class: a CamelCase text never starts with '_' *)
+Theorem camelcase_never_private s : is_private (make_camelcase s) = false.
+Proof. apply alnum_not_private, make_camelcase_alnum. Qed.
+
+Theorem rename_class_idempotent_partial n pr r :
+  camel_guard n = true -> rename_class n pr = Some r -> rename_class r pr = Some r.
+Proof.
+  unfold camel_guard. intros Hg. rewrite rename_class_simpl.
+  destruct (collapse_us false n) as [|x y] eqn:En; [discriminate|]. cbv zeta.
+  set (c := make_camelcase (x :: y)).
+  destruct (is_ident (pref pr c)) eqn:Ei; intros [= <-].
+  - (* converted: a second conversion reproduces it *)
+    rewrite rename_class_simpl.
+    assert (Hc : forallb is_alnum c = true) by apply make_camelcase_alnum.
+    assert (Ecol : collapse_us false (pref pr c) = pref pr c).
+    { unfold pref. destruct pr; [|now apply collapse_alnum].
+      change (collapse_us false (US :: c)) with (US :: collapse_us true c). now rewrite (collapse_alnum true c Hc). }
+    assert (Ecam : make_camelcase (pref pr c) = c).
+    { unfold pref. destruct pr; [rewrite make_camelcase_skip by reflexivity|]; unfold c; now apply camel_of_camel. }
+    rewrite Ecol. destruct (pref pr c) as [|p0 p1] eqn:Ep; [discriminate|]. cbv zeta.
+    rewrite Ecam, Ep, Ei. reflexivity.
+  - (* left alone *)
+    rewrite rename_class_simpl, En. cbv zeta. fold c. now rewrite Ei.
+Qed.
+
+Example rename_class_idempotent_partial_example :
+  (* "my_http_server2" -> "MyHttpServer2" *)
+  camel_guard [109;121;95;104;116;116;112;95;115;101;114;118;101;114;50] = true
+  /\ rename_class [109;121;95;104;116;116;112;95;115;101;114;118;101;114;50] false
+     = Some [77;121;72;116;116;112;83;101;114;118;101;114;50].
+Proof. vm_compute. split; reflexivity. Qed.
